@@ -47,6 +47,41 @@ class AltRecPalette(PPRecordFmt.PPRecordPalette):
     number = ConfColor('ERROR')
 
 
+class BoxPalette(akcolor.Palette):
+    """palette of a printable object defined by a user of the package"""
+    SYNTAX_DEFAULTS = {"BOX.FRAME": "BLUE", "BOX.TEXT": "NAME:underline"}
+    frame = ConfColor("BOX.FRAME")
+    label = ConfColor("BOX.TEXT")
+    number = ConfColor("NUMBER")
+
+
+class UserBox(akppobj.PPObj):
+    """user-defined printable object producing lines"""
+    PALETTE_CLASS = BoxPalette
+
+    def __init__(self, items):
+        self.items = items
+
+    def gen_ch_lines(self, cp):
+        width = max([len(str(x)) for x in self.items] + [3])
+        yield CHText(cp.frame("+" + "-" * width + "+"))
+        for x in self.items:
+            fmt = cp.number if isinstance(x, (int, float)) and not isinstance(x, bool) else cp.label
+            yield CHText(cp.frame("|"), CHText(fmt(str(x))).fixed_len(width), cp.frame("|"))
+        yield CHText(cp.frame("+" + "-" * width + "+"))
+
+
+class UserNote(akppobj.PPObj):
+    """user-defined printable object producing its text at once"""
+    PALETTE_CLASS = BoxPalette
+
+    def __init__(self, items):
+        self.items = items
+
+    def make_ch_text(self, cp):
+        return CHText(cp.frame("["), CHText(cp.text(", ")).join(cp.label(str(x)) for x in self.items), cp.frame("]"))
+
+
 PALETTES = {
     "PPPalette": PrettyPrinter.PPPalette, "GHistPalette": akghist.GHistReport.GHistPalette,
     "red": RedTablePalette, "sub": SubTablePalette, "altpp": AltPPPalette,
@@ -207,7 +242,13 @@ def build_object(spec, enums):
     """enums: {index: PPEnumFieldType} shared field types of the world"""
     k = spec["kind"]
     if k == "pp":
+        if spec.get("module_pp") and not spec.get("fmt_json"):
+            return Built(k, akppobj.pp, spec)        # the ready-to-use printer of the module
         return Built(k, PrettyPrinter(fmt_json=spec.get("fmt_json", False)), spec)
+    if k == "userbox":
+        return Built(k, UserBox(spec["items"]), spec)
+    if k == "usernote":
+        return Built(k, UserNote(spec["items"]), spec)
     if k == "table":
         recs = _records(spec)
         kw = {}
@@ -291,7 +332,7 @@ def start_rendering(built, conf, mode):
     k = built.kind
     if k == "pp":
         r.res = built.obj(built.spec["value"], palette=palette, no_color=no_color, colors_conf=colors_conf)
-    elif k in ("table", "ghist"):
+    elif k in ("table", "ghist", "userbox", "usernote"):
         r.res = built.obj.ch_text(palette=palette, no_color=no_color, colors_conf=colors_conf)
     elif k == "recfmt":
         rec = built.records[mode.get("rec", 0) % len(built.records)]
@@ -368,6 +409,8 @@ def poke(r, what):
 
 def line_iter(r):
     k = r.built.kind
+    if k == "usernote":
+        return iter([r.res.get_ch_text()])       # implements make_ch_text only: one piece
     if k == "ppwrap":
         return iter(str(r.built.obj).split("\n"))
     if k == "hdoc":
